@@ -101,13 +101,13 @@ let () = register "c09.project" (fun line ->
    rebuidCreateTypeMap (check_all.go) merges the per-file lists while ranging over fileStructMap and the consumers
    take the first element, so hover / definition of a field vary between fresh starts (finding C09-class-order, open;
    fixes/C09-class-order.diff sorts the files there: set fixed_class_order when it is committed) *)
-let fixed_class_order = false
+let fixed_class_order = true
 (* second declared feature: manysyms = a workspace/symbol query with more than 200 matches (the result is cut at
    maxSymbols after a sort on the score alone: finding C09-symbol-cut, open; fixes/C09-symbol-order.diff) *)
-let fixed_symbol_order = false
+let fixed_symbol_order = true
 (* third declared feature: manyrefs = a references query with more hits than ReferenceMaxNum (the list is cut in the
    completion order of the worker goroutines: finding C09-references-cut, open; fixes/C09-references-cut.diff) *)
-let fixed_references_cut = false
+let fixed_references_cut = true
 let () = register "c09.srvrep" (fun line ->
   match split_ws line with
   | _ :: feats :: _ ->
